@@ -566,6 +566,19 @@ theorem c06_src_own_reply (s : Proto) (name : String) (args : Vals) (kwargs : Kw
       ∃ d ∈ f1 ++ f2, ∃ nm tr, rxFrame s.version s.cmds d = .ok s.seq c.id nm v tr ∧ nm ≠ "invalidCommand" :=
   command_result s name args kwargs v sf hw h
 
+/-- **the own reply is returned** (source level): no frame before it decodes with the call's sequence number; then the frame that
+decodes with the sequence number placed in the request and the command's frame ID completes the call with exactly its decoded
+payload - whatever follows it in the same wait, whatever would have ended the wait -/
+theorem c06_src_reply_returned (s : Proto) (name : String) (args : Vals) (kwargs : KwVals) (c : Cmd) (data : List UInt8)
+    (f1 pre post : List (List UInt8)) (d : List UInt8) (fin : WaitEnd) (rest : List CResp) (nm : String) (v : Vals) (tr : List UInt8)
+    (hw : WF s) (hs : s.script = .acquire true :: .send f1 none :: .wait (pre ++ d :: post) fin :: rest)
+    (hc : findByName s.cmds name = some c)
+    (hfr : (ezsp_frame name args kwargs (entered s name (.send f1 none :: .wait (pre ++ d :: post) fin :: rest))).1 = .ok data)
+    (hno : ∀ x ∈ f1 ++ pre, ∀ id nm v tr, rxFrame s.version s.cmds x ≠ .ok s.seq id nm v tr)
+    (hd : rxFrame s.version s.cmds d = .ok s.seq c.id nm v tr) (hnm : nm ≠ "invalidCommand") :
+    (command name args kwargs s).1 = .ok v :=
+  command_reply s name args kwargs c data f1 pre post d fin rest nm v tr hw hs hc hfr hno hd hnm
+
 /-- **the timeout** (source level): no frame with the call's sequence number while it is suspended ⇒ `TimeoutError` at the
 deadline (`CancelledError` when the caller is cancelled), and the call's future is dead afterwards -/
 theorem c06_src_timeout (s : Proto) (name : String) (args : Vals) (kwargs : KwVals) (c : Cmd) (data : List UInt8)
@@ -595,6 +608,13 @@ example : ∃ c, findByName st0.cmds "getValue" = some c ∧ c.id = 170 ∧ c.id
     txBody c [.num 3] [] = .ok [3] := by
   refine ⟨⟨"getValue", 170, [("valueId", .uint 1)], [("status", .uint 1), ("value", .lvbytes 1)]⟩, by rfl, rfl, by decide, ?_⟩
   simp [txBody, schemaIsDict, serDict, resolveArgs, resolveArgs.go, serFields, ser, leBytes]
+
+/-- ... and the reply `ff 80 01 aa 00 | 00 | 02 07 08` decodes, under a version-8 handler that knows `getValue` as the generated
+table declares it, with sequence number 255 and that frame ID to (0, bytes 07 08): the premise of `c06_src_reply_returned` about
+the reply frame is satisfiable -/
+example : rxFrame 8 [⟨"getValue", 170, [("valueId", .uint 1)], [("status", .uint 1), ("value", .lvbytes 1)]⟩]
+    [255, 0x80, 1, 0xAA, 0, 0, 2, 7, 8] = .ok 255 170 "getValue" [.num 0, .bytes [7, 8]] [] := by
+  simp [rxFrame, rxHeader, hdrOf, findById, List.find?, Cmd.rxT, deFields, de, leVal]
 
 end Src
 
